@@ -110,6 +110,23 @@ static int run(const ZI* const* full, int nfull, int mk) {
     TimeZone pcreated = inpart ? pmgr.createForZoneInfo(full[i]) : TimeZone::forError();
     one_case<ZI, ZONE, MGR>(created, pmgr, mk, full, nfull, inpart, inpart ? &pcreated : nullptr);
   }
+  // histories: a zone that is NOT in the manager's registry is obtained with createForZoneInfo() (which bypasses the
+  // registry) and used, so that one of the manager's cached processors is bound to it; restoring its saved id through
+  // that manager must still give the error zone, before and after other zones cycle through the cache
+  for (int i = 1; i < nfull; i += 3) {
+    TimeZone bypass = pmgr.createForZoneInfo(full[i]);
+    TimeZoneData d = bypass.toTimeZoneData();
+    if (!pmgr.createForTimeZoneData(d).isError()) fail("id absent from the registry restored to a non-error zone (before use)");
+    bypass.getUtcOffset((acetime_t) 200000000); bypass.getAbbrev((acetime_t) 200000000);
+    Print pp; bypass.printTo(pp);
+    if (!pmgr.createForTimeZoneData(d).isError()) fail("id absent from the registry restored to a non-error zone after the zone was used through createForZoneInfo");
+    if (!pmgr.createForZoneId(bypass.getZoneId()).isError()) fail("createForZoneId of an id absent from the registry is not the error zone after createForZoneInfo use");
+    if (pmgr.indexForZoneId(bypass.getZoneId()) != MGR::kInvalidIndex) fail("indexForZoneId finds an id absent from the registry");
+    TimeZone other = pmgr.createForZoneIndex((uint16_t) ((i / 3) % part.size()));
+    other.getUtcOffset((acetime_t) 100000000);
+    if (!pmgr.createForTimeZoneData(d).isError()) fail("id absent from the registry restored to a non-error zone after another zone used the cache");
+    nsave += 4;
+  }
   // manual zones: grid plus int16 boundaries; error zone
   static const int stds[] = {-32767, -961, -960, -959, -720, -480, -1, 0, 1, 330, 345, 765, 840, 960, 961, 32767};
   static const int dsts[] = {-32767, -60, -1, 0, 30, 60, 120, 32767};
